@@ -80,6 +80,26 @@ def search_pos(t0: str, t1: str) -> bool:
     return done(ok and S.canon(p) == before)
 
 
+def search_after_edit(t0: str, t1: str, in_span: bool) -> bool:
+    """
+    pre: len(t0) <= 2 and len(t1) <= 2 and all(c in "ab" for c in t0 + t1)
+    post: _
+    """
+    # a search made AFTER an edit of the element (through the same wrapper object that was searched
+    # before) indexes the text as it is now: nothing of an earlier search may be served again
+    e, p, sp = mk(t0, t1)
+    e.search_all(PAT)
+    e.text_at(0)
+    if in_span:
+        Element.from_tag(sp).text = "ba"   # text of a nested element
+        flat = t0 + "ba" + TAIL
+    else:
+        Element.from_tag(sp).tail = "b" + TAIL  # tail of a child
+        flat = t0 + t1 + "b" + TAIL
+    ok = e.search_all(PAT) == [(x.start(), x.end()) for x in re.finditer(PAT, flat)]
+    return done(ok and e.text_at(0) == flat)
+
+
 def text_at_pos(t0: str, t1: str, start: int, end: int) -> bool:
     """
     pre: len(t0) <= 2 and len(t1) <= 2 and all(c in "ab" for c in t0 + t1) and -2 <= start <= 7 and -2 <= end <= 7
